@@ -368,3 +368,7 @@ func (h *Handler) ShadowKeys() []string {
 	sort.Strings(ks)
 	return ks
 }
+
+// Lock / Unlock give a harness a consistent view of the exported logs.
+func (h *Handler) Lock()   { h.mu.Lock() }
+func (h *Handler) Unlock() { h.mu.Unlock() }
